@@ -37,7 +37,7 @@ def run(rep):
     chunks = [c for c in chunks if c]
     procs = []
     for i, ch in enumerate(chunks):
-        ranges = [[st[0][len('musicxml/'):], st[2], st[3]] for st in (code.get('class_level_stores') or [])]
+        ranges = [[st[0][len('musicxml/'):], st[2], st[3]] for st in (code.get('class_level_stores') or []) + (code.get('lazy_instance_stores') or [])]
         job = {'ranges': ranges, 'scenarios': [list(x) for x in ch], 'max_points': 90 if quick else 1500, 'seed': rep.seed * 10 + i, 'values': VALUES}
         p = subprocess.Popen([C.PY, '-W', 'ignore', os.path.join(C.VERIF, 'corr', 'c20_runner.py')], stdin=subprocess.PIPE, stdout=subprocess.PIPE,
                              stderr=subprocess.PIPE, text=True, env=C.impl_env())
@@ -73,7 +73,7 @@ def run(rep):
                          'samples': sc[:2]})
     if not res['ok'] or res['forbidden'] or not res['build_ok']:
         if not rep.violations:
-            bad = [s for s in (code.get('class_level_stores') or []) if s[-1] != 'SingleStore']
+            bad = [s for s in (code.get('class_level_stores') or []) if s[-1] != 'SingleStore'] + [s for s in (code.get('lazy_instance_stores') or []) if s[-1] == 'Unsafe']
             rep.violation('Properties/C20.v no longer checks (theorem %s): class-level stores that publish before filling: %s' % (res['failing'], bad),
                           {'theorem': res['failing'], 'publish_then_fill_sites': bad, 'log': res['log'][-2000:]}, found_input=False)
     rep.assumptions += ['CPython: a single attribute store and list.append are atomic; pre-emption between lines only (as the property states)',
